@@ -801,6 +801,14 @@ fn run_case(vc: &VCase, stats: &mut Stats, genr: Option<(&mut Prng, usize)>, tot
             *totals.entry("state_check_self_allowance_messages".to_string()).or_insert(0) += 1;
             continue;
         }
+        if msg.contains("is also a datacap token holder") {
+            // the repository's test tooling expects a verifier never to hold DataCap; the actors allow it on a
+            // legitimate path (a client whose tokens all sit in allocations is made a verifier - its balance is
+            // zero at that moment - and an allocation later expires and is refunded to it). Not a clause of C09:
+            // counted, not a failure.
+            *totals.entry("state_check_verifier_holds_datacap_messages".to_string()).or_insert(0) += 1;
+            continue;
+        }
         fails.push(json!({"class": "repo-state-invariant", "step": n, "what": [msg], "case": VCase { ops: done.clone() }}));
     }
     for (k, v) in [("allocations_created", mon.created), ("allocations_claimed", mon.claimed), ("allocations_refunded", mon.refunded),
